@@ -458,6 +458,8 @@ func NewSimApp(
 		app.TIBCKeeper.PacketKeeper, app.TIBCKeeper.ClientKeeper,
 	)
 
+	app.verifWrapTransferKeepers(appCodec, keys)
+
 	nfttransferModule := tibcnfttransfer.NewAppModule(app.NftTransferKeeper)
 	mttransferModule := tibcmttransfer.NewAppModule(app.MtTransferKeeper)
 
